@@ -68,6 +68,9 @@ Definition acc_table : list (string * aexp) :=
    ("Connect.Will"%string, AWill);
    ("Connect.WillDelayInterval"%string, AField F_willDelayInterval ToN);
    ("Disconnect.ReasonCode"%string, AField F_reasonCode ToN);
+   ("Disconnect.ReasonString"%string, AField F_reasonString ToS);
+   ("Disconnect.ServerReference"%string, AField F_serverReference ToS);
+   ("Disconnect.SessionExpiryInterval"%string, AField F_sessionExpiryInterval ToN);
    ("PubAck.PacketID"%string, AField F_packetID ToN);
    ("PubAck.ReasonCode"%string, AField F_reasonCode ToN);
    ("PubAck.ReasonString"%string, AField F_reasonString ToS);
@@ -157,7 +160,8 @@ Definition snapshot_names (k : kind) : list string :=
   | KSubAck => suback_names "SubAck" | KUnsubAck => suback_names "UnsubAck"
   | KUnsubscribe => ["Unsubscribe.PacketID"; "Unsubscribe.Filters"; "UserProperties"]
   | KPingReq | KPingResp => []
-  | KDisconnect => ["Disconnect.ReasonCode"; "UserProperties"]
+  | KDisconnect => ["Disconnect.ReasonCode"; "Disconnect.SessionExpiryInterval"; "Disconnect.ReasonString";
+                    "Disconnect.ServerReference"; "UserProperties"]
   | KAuth => ["Auth.ReasonCode"; "Auth.ReasonString"; "Auth.AuthMethod"; "Auth.AuthData"; "UserProperties"]
   | KUndefined => ["Undefined.Data"]
   end%string.
